@@ -85,6 +85,13 @@ func (l *Lab) newC10World(cfg c10Cfg, idp *IdP) (*c10World, error) {
 	}
 	if cfg.Bufs {
 		g.SendBuf, g.ReceiveBuf = 65536, 65536
+		// one of the two options alone takes other branches of the socket-option code
+		if strings.HasSuffix(cfg.Name, "-rcvbuf") {
+			g.SendBuf = 0
+		}
+		if strings.HasSuffix(cfg.Name, "-sndbuf") {
+			g.ReceiveBuf = 0
+		}
 	}
 	switch cfg.Kind {
 	case "openid":
@@ -842,6 +849,8 @@ func CheckC10(l *Lab, verifDir string) int {
 		{"ntlm-tls", "ntlm", true, false},
 		{"local-kerberos-tls-bufs", "local+kerberos", true, true},
 		{"openid-tls", "openid", true, false},
+		{"ntlm-plain-rcvbuf", "ntlm", false, true},
+		{"openid-tls-sndbuf", "openid", true, true},
 	}
 	if !l.Quick() {
 		cfgs = append(cfgs, c10Cfg{"ntlm-plain", "ntlm", false, false}, c10Cfg{"local-kerberos-tls", "local+kerberos", true, false},
